@@ -220,6 +220,16 @@ func (cl *countedLoop) tripCount() (int64, bool) {
 	return 0, false
 }
 
+// visitsAll: the loop variable takes every value 0 .. n-1 exactly once (counting up from 0 or down from n-1).
+func (cl *countedLoop) visitsAll(n int64) bool {
+	trips, ok := cl.tripCount()
+	a, okA := core.ConstInt(cl.init)
+	if !ok || !okA || trips != n {
+		return false
+	}
+	return (cl.step == 1 && a == 0) || (cl.step == -1 && a == n-1)
+}
+
 // aff is an integer affine form c + Σ coef·leaf over SSA values (leaves compared with core.SameExpr).
 type aff struct {
 	leaves []ssa.Value
